@@ -30,7 +30,7 @@ Section History.
 
   Inductive hop :=
   | HMigrate (from to : addr) (sg : option sigT)
-  | HEndBlock (t next : time) (burns converts : list Z)
+  | HEndBlock (t next : time) (burns converts : list Z) (vs : vside)
   | HSubmit (a : addr) (amt : Z) (exp : bool) (vp : time) (mind : Z)
   | HDeposit (a : addr) (pid amt : Z)
   | HVote (a : addr) (pid : Z)
@@ -48,7 +48,7 @@ Section History.
     let (e, s) := es in
     match o with
     | HMigrate f t sg => (e, keep s (migrate_tx sigT recover s f t sg))
-    | HEndBlock t n b c => (e, end_block t n b c s)
+    | HEndBlock t n b c vs => (e, end_block t n b c vs s)
     | HSubmit a amt x vp m => (e, keep s (submit_proposal a amt x vp m s))
     | HDeposit a pid amt => (e, keep s (add_deposit pid a amt s))
     | HVote a pid => (e, keep s (cast_vote a pid s))
